@@ -272,6 +272,12 @@ func c07Incremental(fs *Facts, f *File) {
 		arg := fd.Type.Params.List[0].Names[0].Name
 		where := c07At(c07Swamp, f, fd)
 		asc, desc := "s."+s.field+"ASC", "s."+s.field+"DESC"
+		// guard + Reset of both beacons, nothing else: the pair is dropped and rebuilt by the next read
+		if len(fd.Body.List) == 3 && f.Str(fd.Body.List[0]) == "if !"+asc+".IsInitialized() && !"+desc+".IsInitialized() { return }" &&
+			f.Str(fd.Body.List[1]) == asc+".Reset()" && f.Str(fd.Body.List[2]) == desc+".Reset()" {
+			fs.Enum(s.fact, "invalidate", where)
+			continue
+		}
 		// guard + both Adds
 		if !f.Contains(fd.Body, "if !"+asc+".IsInitialized() { return }") ||
 			len(f.Calls(fd.Body, asc+".Add")) != 1 || len(f.Calls(fd.Body, desc+".Add")) != 1 ||
@@ -430,13 +436,30 @@ func c07Save(fs *Facts, f *File) {
 	if first.Else != nil && !expOK {
 		return
 	}
-	// no other beacon maintenance anywhere else in the block
+	// after the chain: optional re-filing blocks, each of the known shape; anything else that
+	// touches a beacon makes the facts unknown
+	refile := func(flag, field, getter, add string) string {
+		return "if !t.IsContentTypeChanged() && t." + flag + "() { s.deleteTreasureIfBeaconInitialized(s." + field + "ASC, t.GetKey()) s.deleteTreasureIfBeaconInitialized(s." + field + "DESC, t.GetKey()) if t." + getter + "() != 0 { s." + add + "(t) } }"
+	}
+	upd, crt, val := No, No, No
 	other := 0
 	for _, st := range modified.Body.List[1:] {
+		switch f.Str(st) {
+		case refile("IsModifiedAtChanged", "updateTimeBeacon", "GetModifiedAt", "addToUpdateTimeBeacon"):
+			upd = Yes
+			continue
+		case refile("IsCreatedAtChanged", "creationTimeBeacon", "GetCreatedAt", "addToCreationTimeBeacon"):
+			crt = Yes
+			continue
+		case "if !t.IsContentTypeChanged() && t.IsContentChanged() { s.addToValueBeacon(t) }":
+			val = Yes
+			continue
+		}
 		for _, c := range f.CallsSuffix(st, "") {
 			fn := f.Str(c.Fun)
 			if strings.HasPrefix(fn, "s.addTo") || strings.HasPrefix(fn, "s.deleteTreasure") || strings.HasPrefix(fn, "s.addTreasureToBeacons") ||
-				strings.Contains(fn, ".SortBy") || strings.HasPrefix(fn, "s.buildBeacon") {
+				strings.Contains(fn, ".SortBy") || strings.HasPrefix(fn, "s.buildBeacon") || strings.HasSuffix(fn, "Beacon.Reset") ||
+				strings.HasSuffix(fn, "BeaconASC.Reset") || strings.HasSuffix(fn, "BeaconDESC.Reset") {
 				other++
 			}
 		}
@@ -445,9 +468,9 @@ func c07Save(fs *Facts, f *File) {
 		return
 	}
 	fs.Tri("updRefreshExpireOnFlag", TriOf(expOK), where)
-	fs.Tri("updRefreshCreated", No, where)
-	fs.Tri("updRefreshUpdated", No, where)
-	fs.Tri("updRefreshValue", No, where)
+	fs.Tri("updRefreshCreated", crt, where)
+	fs.Tri("updRefreshUpdated", upd, where)
+	fs.Tri("updRefreshValue", val, where)
 }
 
 func c07Shared(fs *Facts, f *File) {
